@@ -11,6 +11,8 @@ TARGETS = [
     ("fakesnow/checks.py", "equal", "fakesnow.checks.equal"),
     ("fakesnow/expr.py", "key_command", "fakesnow.expr.key_command"),
     ("fakesnow/checks.py", "is_unqualified_table_expression", "fakesnow.checks.is_unqualified_table_expression"),
+    ("fakesnow/conn.py", "FakeSnowflakeConnection.__init__", "fakesnow.conn.FakeSnowflakeConnection.__init__"),
 ]
 
-T = {cn.split(".")[-1] if cn.split(".")[-1] not in ("split",) else cn.split(".")[-1]: (rel, q, cn) for rel, q, cn in TARGETS}
+T = {cn.split("fakesnow.", 1)[1]: (rel, q, cn) for rel, q, cn in TARGETS}
+T.update({cn.split(".")[-1]: (rel, q, cn) for rel, q, cn in TARGETS if not cn.endswith("__init__")})
